@@ -663,3 +663,11 @@ def c20_particles(detector, clusters=()) -> None:
         particle_type="e", particles_per_cluster=np.array([float(c[2]) for c in clusters]), init_energy=z,
         init_ver_position=(rows + 0.5) * geo.pixel_vert_size, init_hor_position=(cols + 0.5) * geo.pixel_horz_size,
         init_z_position=z, init_ver_velocity=z, init_hor_velocity=z, init_z_velocity=z)
+
+
+def c16_signal(detector, patterns=(), shape=(1, 1)) -> None:
+    """C16: put a given voltage frame into the signal bucket (doubles sent as decimal strings of their 64-bit patterns)"""
+    import struct
+
+    vals = [struct.unpack("<d", struct.pack("<Q", int(p)))[0] for p in patterns]
+    detector.signal.array = np.array(vals, dtype=float).reshape(tuple(shape))
